@@ -28,6 +28,8 @@ import (
 	"strconv"
 	"strings"
 	"time"
+
+	"github.com/vedadiyan/genql/compare"
 )
 
 //	Calculates the sum of a given numeric array
@@ -211,7 +213,7 @@ func CountFunc(query *Query, current Map, functionOptions *FunctionOptions, args
 func ConcatFunc(query *Query, current Map, functionOptions *FunctionOptions, args []any) (any, error) {
 	var buffer bytes.Buffer
 	for _, arg := range args {
-		buffer.WriteString(fmt.Sprintf("%v", arg))
+		buffer.WriteString(compare.Text(arg))
 	}
 	return buffer.String(), nil
 }
@@ -358,7 +360,7 @@ func ChangeTypeFunc(query *Query, current Map, functionOptions *FunctionOptions,
 		}
 	case "string":
 		{
-			return fmt.Sprintf("%v", *value), nil
+			return compare.Text(*value), nil
 		}
 	case "double":
 		{
@@ -496,10 +498,10 @@ func DateRangeFunc(query *Query, current Map, functionOptions *FunctionOptions, 
 		to   string
 	)
 	if args[0] != nil {
-		from = fmt.Sprintf("%v", args[0])
+		from = compare.Text(args[0])
 	}
 	if args[1] != nil {
-		to = fmt.Sprintf("%v", args[1])
+		to = compare.Text(args[1])
 	}
 	// (an array like any other: FIRST, LAST, ELEMENTAT and UNWIND take it)
 	return []any{from, to}, nil
@@ -520,7 +522,7 @@ func ConstantFunc(query *Query, current Map, functionOptions *FunctionOptions, a
 	if query.options.constants == nil {
 		return nil, fmt.Errorf("constants not initialized")
 	}
-	key := fmt.Sprintf("%v", args[0])
+	key := compare.Text(args[0])
 	value, ok := query.options.constants[key]
 	if !ok {
 		return nil, fmt.Errorf("no constant by the name `%s` was found", key)
@@ -540,7 +542,7 @@ func GetVarFunc(query *Query, current Map, functionOptions *FunctionOptions, arg
 	if err != nil {
 		return nil, err
 	}
-	key := fmt.Sprintf("%v", args[0])
+	key := compare.Text(args[0])
 	query.options.varsMut.RLock()
 	defer query.options.varsMut.RUnlock()
 	value, ok := query.options.vars[key]
@@ -563,7 +565,7 @@ func SetVarFunc(query *Query, current Map, functionOptions *FunctionOptions, arg
 	if err != nil {
 		return nil, err
 	}
-	key := fmt.Sprintf("%v", args[0])
+	key := compare.Text(args[0])
 	value := args[1]
 	query.options.varsMut.Lock()
 	defer query.options.varsMut.Unlock()
@@ -589,7 +591,7 @@ func RaiseWhenFunc(query *Query, current Map, functionOptions *FunctionOptions, 
 		return nil, err
 	}
 	if *cond {
-		return nil, fmt.Errorf("%v", args[1])
+		return nil, fmt.Errorf("%s", compare.Text(args[1]))
 	}
 	return Ommit(true), nil
 }
@@ -606,7 +608,7 @@ func RaiseFunc(query *Query, current Map, functionOptions *FunctionOptions, args
 	if err != nil {
 		return nil, err
 	}
-	return nil, fmt.Errorf("%v", args[0])
+	return nil, fmt.Errorf("%s", compare.Text(args[0]))
 }
 
 //	Report When
@@ -628,7 +630,7 @@ func ReportWhenFunc(query *Query, current Map, functionOptions *FunctionOptions,
 	}
 	if *cond {
 		if query.options.errors != nil {
-			query.options.errors(fmt.Errorf("%v", args[1]))
+			query.options.errors(fmt.Errorf("%s", compare.Text(args[1])))
 		}
 	}
 	return Ommit(true), nil
@@ -647,7 +649,7 @@ func ReportFunc(query *Query, current Map, functionOptions *FunctionOptions, arg
 		return nil, err
 	}
 	if query.options.errors != nil {
-		query.options.errors(fmt.Errorf("%v", args[0]))
+		query.options.errors(fmt.Errorf("%s", compare.Text(args[0])))
 	}
 	return Ommit(true), nil
 }
@@ -895,7 +897,7 @@ func ToFloat64(any any) (float64, error) {
 	// This way of casting values to float64 is inefficient
 	// I have used this technique to avoid writing a long
 	// switch case only.
-	number, err := strconv.ParseFloat(fmt.Sprintf("%v", any), 64)
+	number, err := strconv.ParseFloat(compare.Text(any), 64)
 	if err != nil {
 		return 0, err
 	}
@@ -910,7 +912,7 @@ func ToInt(any any) (int, error) {
 		// %v prints integral doubles from 1e+06 on in exponent form, which Atoi rejects
 		return int(float), nil
 	}
-	number, err := strconv.Atoi(fmt.Sprintf("%v", any))
+	number, err := strconv.Atoi(compare.Text(any))
 	if err != nil {
 		return 0, err
 	}
